@@ -15,7 +15,7 @@ ID = "C06"
 SUPERVISED = True
 CASE_TIMEOUT = 30.0
 RULE = ("every flow-direction grid of the listed shapes over the code alphabet "
-        "{0, 8 ESRI codes, 1 invalid code} (reduced per-cell alphabets where stated), and on each grid every "
+        "{0, 8 ESRI codes, a small invalid code, an invalid code beyond 2^32 whose low 32 bits are a valid code} (reduced per-cell alphabets where stated), and on each grid every "
         "cell as outlet x every inlet set up to the stated size x every river start, executed on the real "
         "Catchment.downstream/upstream/delineate_area/compute_flowpathlengths and delineate_river and compared "
         "with an independent chain-walking model; larger shapes with <=2 cell deviations from 3 base fields. "
@@ -34,10 +34,10 @@ LEVEL_NOTE = ("Trusted: the 60-line chain-walking reference model (checks/_flow.
 
 def bound_text(tier, seed):
     if tier == "quick":
-        return ("all grids 1x1..1x3, 2x1, 3x1, 2x2 over 10 codes and all 1x4/4x1 grids over the reduced alphabet, every outlet, "
+        return ("all grids 1x1..1x3, 2x1, 3x1, 2x2 over 11 codes and all 1x4/4x1 grids over the reduced alphabet, every outlet, "
                 "inlet sets <=2 (<=1 for 4-cell strips), every river start; 2x3 and 3x3 with <=2 deviations from the converging field; "
                 "1x8, 2x5, 4x4 with <=1 deviation from 3 base fields")
-    return ("all grids with <=5 cells over 10 codes (inlet sets <=2); all 2x3/3x2 grids over the reduced alphabet (inlet sets <=1); "
+    return ("all grids with <=5 cells over 11 codes (inlet sets <=2); all 2x3/3x2 grids over the reduced alphabet (inlet sets <=1); "
             "all 3x3 grids over {in-grid dirs, sink} (relations and areas only, no inlets, every outlet); 1x8, 8x1, 2x5, 4x4 with <=2 deviations from 3 base fields")
 
 
